@@ -39,6 +39,7 @@ _num_buckets(num_buckets),
 _sketch_array((static_cast<uint64_t>(num_hashes)*num_buckets < 1<<30) ? num_hashes*num_buckets : 0, 0, _allocator),
 _seed(seed),
 _total_weight(0) {
+  if (num_hashes < 1) throw std::invalid_argument("Must have at least 1 hash function.");
   if (num_buckets < 3) throw std::invalid_argument("Using fewer than 3 buckets incurs relative error greater than 1.");
 
   // This check is to ensure later compatibility with a Java implementation whose maximum size can only
